@@ -1,0 +1,44 @@
+//go:build verif
+
+package onchangemap
+
+// Contracts for OnChangeMap's callback dispatch (property C12: callbacks mirror every change), read by the verification
+// machinery in /verif. Comment-only file.
+//
+// With callbacks enabled every change runs the changed-callback (if one is registered) exactly once and then - unless
+// the changed-callback failed - the item callback of that kind of change (if one is registered) exactly once; with
+// callbacks disabled nothing runs. Ghost counters nchg / nitm count the invocations.
+
+/*@
+global nchg Int      -- invocations of the changed-callback (ghost)
+global nitm Int      -- invocations of an item callback (ghost)
+global chgfail Bool  -- the changed-callback of the running dispatch returned an error (ghost)
+
+type OnChangeMap
+  callback changedCallback(items) (err)
+
+assume-func github.com/iotaledger/hive.go/ds/shrinkingmap.ShrinkingMap.Values(s) (r)
+  requires s != nil
+
+func OnChangeMap.executeChangedCallback
+  opt assume-no-overflow
+  requires r != nil && r.m != nil
+  modifies ghost(nchg), ghost(chgfail)
+  ghost at entry: chgfail = false
+  ghost before call OnChangeMap#changedCallback: nchg = nchg + 1
+  ghost after call OnChangeMap#changedCallback: chgfail = (result != nil)
+  ensures nchg == old(nchg) + ((r.callbacksEnabled && r.changedCallback != nil) ? 1 : 0)
+  ensures (r0 != nil) <==> chgfail
+  ensures chgfail ==> r.callbacksEnabled && r.changedCallback != nil
+
+func OnChangeMap.executeItemCallback
+  opt assume-no-overflow
+  requires r != nil && r.m != nil
+  callback callback(item) (err)
+  modifies ghost(nchg), ghost(nitm), ghost(chgfail)
+  ghost before call OnChangeMap.executeItemCallback#callback: nitm = nitm + 1
+  -- the changed-callback mirrors every change, whether or not an item callback of this kind is registered
+  ensures nchg == old(nchg) + ((r.callbacksEnabled && r.changedCallback != nil) ? 1 : 0)
+  ensures nitm == old(nitm) + ((r.callbacksEnabled && callback != nil && !chgfail) ? 1 : 0)
+  ensures !r.callbacksEnabled ==> r0 == nil
+@*/
